@@ -51,9 +51,37 @@ func (c *MJColumnComponent) calculateEffectiveContentWidth() int {
 	// Get column padding (defaults to no padding) using full attribute resolution
 	padding := c.GetAttributeWithDefault(c, "padding")
 	leftPadding, rightPadding := c.parsePaddingLeftRight(padding)
+	if l, r, ok := styles.ParseHorizontalSpacing(padding); ok {
+		// three- and four-value shorthands
+		leftPadding, rightPadding = int(l), int(r)
+	}
+	// Per-side attributes override the shorthand
+	if pl := c.GetAttributeFast(c, constants.MJMLPaddingLeft); pl != "" {
+		if px, err := styles.ParsePixel(pl); err == nil && px != nil {
+			leftPadding = int(px.Value)
+		}
+	}
+	if pr := c.GetAttributeFast(c, constants.MJMLPaddingRight); pr != "" {
+		if px, err := styles.ParsePixel(pr); err == nil && px != nil {
+			rightPadding = int(px.Value)
+		}
+	}
 
-	// Subtract total horizontal padding
-	effectiveWidth := containerWidth - leftPadding - rightPadding
+	// Borders narrow the content box as well (MJML: containerWidth - paddings - borders)
+	leftBorder, rightBorder := 0, 0
+	if border := c.GetAttributeFast(c, constants.MJMLBorder); border != "" {
+		leftBorder = styles.ParseBorderWidth(border)
+		rightBorder = leftBorder
+	}
+	if bl := c.GetAttributeFast(c, constants.MJMLBorderLeft); bl != "" {
+		leftBorder = styles.ParseBorderWidth(bl)
+	}
+	if br := c.GetAttributeFast(c, constants.MJMLBorderRight); br != "" {
+		rightBorder = styles.ParseBorderWidth(br)
+	}
+
+	// Subtract total horizontal padding and borders
+	effectiveWidth := containerWidth - leftPadding - rightPadding - leftBorder - rightBorder
 	if effectiveWidth < 0 {
 		effectiveWidth = containerWidth // fallback
 	}
